@@ -114,7 +114,7 @@ PROPS["C07"] = {
 }
 
 PROPS["C06"] = {
-    "lean": ["WsVerif.Props.C06", "WsVerif.Props.C06Flush", "WsVerif.Bridge.C06"],
+    "lean": ["WsVerif.Props.C06", "WsVerif.Props.C06Flush", "WsVerif.Props.C06Sessions", "WsVerif.Bridge.C06"],
     "rule": "Operation sequences over Write/WriteThrough/FlushFragment/Flush/ReadFrom/Grow (+ DisableFlush, SetExtensions, ResetOp): "
             "exhaustive to depth 3 over an alphabet of sizes {0,1,avail-1,avail,avail+1,2*avail} relative to the buffer, for 4 (quick) / 8 "
             "(thorough) constructors x both sides; buffers of every size 126..136 and 65536..65550 filled to avail-1/avail/avail+1 with "
